@@ -431,6 +431,7 @@ type Report struct {
 	Samples            []sample         `json:"samples"`
 	Counters           map[string]int64 `json:"counters"`
 	Distinct           map[string]int   `json:"distinct"`
+	DistinctMembers    map[string][]string `json:"distinct_members,omitempty"` // up to 80 members of each set, sorted
 	EventKinds         map[string]int64 `json:"event_kinds"`
 	Violations         []Violation      `json:"violations"`
 	Inconclusive       []string         `json:"inconclusive"`
@@ -588,8 +589,18 @@ func Run(t *testing.T, cfg Config, body func(c *Case)) {
 	})
 
 	rep.DistinctNontrivial = len(sigs)
+	rep.DistinctMembers = map[string][]string{}
 	for k, m := range sets {
 		rep.Distinct[k] = len(m)
+		var xs []string
+		for x := range m {
+			xs = append(xs, x)
+		}
+		sort.Strings(xs)
+		if len(xs) > 80 {
+			xs = xs[:80]
+		}
+		rep.DistinctMembers[k] = xs
 	}
 	sort.Slice(rep.Samples, func(i, j int) bool { return rep.Samples[i].Index < rep.Samples[j].Index })
 	sort.Slice(rep.Violations, func(i, j int) bool { return rep.Violations[i].Index < rep.Violations[j].Index })
